@@ -455,8 +455,10 @@ class Ctx:
         evdir = Path(os.environ.get("VERIF_EVIDENCE_DIR", str(VERIF / "evidence")))  # redirected for runs against seeded trees
         evdir.mkdir(parents=True, exist_ok=True)
         (evdir / f"{self.pid}.json").write_text(json.dumps(ev, indent=1, default=str) + "\n")
-        if rc == 0:
-            shutil.rmtree(self.casedir, ignore_errors=True)  # keep the generated case files only when something failed
+        if rc == 0 or not os.environ.get("VERIF_KEEP_CASES"):
+            # the generated case files are kept only on request (they can be hundreds of MB per failing run);
+            # a replay file carries everything needed to regenerate them
+            shutil.rmtree(self.casedir, ignore_errors=True)
         status = "PASS" if rc == 0 else ("FAIL" if rc == 1 else "ERROR")
         print(f"{status} {self.pid} tier={self.tier} seed={self.seed} obligations={self.obligations} discharged={self.discharged} "
               f"evaluations={self.evaluations} nontrivial={len(self.nontrivial)} wall={wall:.1f}s")
